@@ -124,6 +124,16 @@ def nf(tu, n, env=None, depth=0):
             return op_nf(name[len('operator'):], ([o] if o is not None else []) + a)
         if name in ('move', 'forward') and q.startswith('std::') and a:
             return a[0]
+        if k == 'CXXMemberCallExpr' and o == ('this',) and depth < 30:
+            c = tu.callee_fn(n)
+            if c is not None and not c.get('virt') and not c['dep'] and len(c.get('params', [])) == len(a):
+                body = tu.body(c)
+                sts = [x for x in tu.kids(body)] if body else []
+                if len(sts) == 1 and sts[0].get('kind') == 'ReturnStmt' and tu.kids(sts[0]):
+                    env2 = dict(env)
+                    for prm, av in zip(c['params'], a):
+                        env2[prm['id']] = av
+                    return nf(tu, tu.kids(sts[0])[0], env2, depth + 1)      # extract-method helper: same term
         return ('call', q, o, tuple(a))
     if k in ('CXXConstructExpr', 'CXXTemporaryObjectExpr'):
         a = [R(x) for x in ks if x.get('kind') != 'CXXDefaultArgExpr']
@@ -582,6 +592,8 @@ def check_for_each(ctx, tu):
             node = cur[0] if len(cur) == 1 else None
             if node is None and not und:
                 und.append('body is not a single loop nest')
+            env = {}
+            helpers = []
             while node is not None and node.get('kind') == 'ForStmt':
                 parts = for_parts(tu, node)
                 if parts is None or parts[1] is not None or any(parts[i] is None for i in (0, 2, 3, 4)):
@@ -593,7 +605,7 @@ def check_for_each(ctx, tu):
                     und.append('loop %d does not declare exactly one initialised variable' % level)
                     break
                 v = vds[0]
-                i0 = nf(tu, tu.kids(v)[-1])
+                i0 = nf(tu, tu.kids(v)[-1], env)
                 want = comp_expected[level] if level < 3 else '?'
                 if not (i0[0] == 'mem' and i0[1] == ('ref', 'ParmVarDecl', lo)):
                     if i0[0] == 'mem' and i0[1] == ('ref', 'ParmVarDecl', hi):
@@ -605,7 +617,7 @@ def check_for_each(ctx, tu):
                 if level < 3 and comp != want:
                     problems.append(('order', 'loop %d (outermost = 0) runs over component %s; the canonical flattened order is '
                                      'outer z, then y, inner x' % (level, comp)))
-                c = nf(tu, cond)
+                c = nf(tu, cond, env)
                 vref = ('ref', 'VarDecl', v.get('name'))
                 bound = None
                 if c[0] == 'op' and c[1] in ('<', '>', '<=', '>=', '!='):
@@ -633,7 +645,7 @@ def check_for_each(ctx, tu):
                         break
                 elif bound[2] != comp:
                     problems.append(('component', 'loop variable starts at lower.%s but is bounded by upper.%s' % (comp, bound[2])))
-                ic = nf(tu, inc)
+                ic = nf(tu, inc, env)
                 if not ((ic[0] == 'un' and ic[1] == '++' and ic[2] == vref) or
                         ic == ('op', '+=', (vref, ('int', 1)))):
                     if ic[0] in ('un', 'op') and vref in (ic[2] if isinstance(ic[2], tuple) else ()) or (ic[0] == 'un' and ic[2] == vref):
@@ -646,11 +658,36 @@ def check_for_each(ctx, tu):
                 node = body
                 while node is not None and node.get('kind') == 'CompoundStmt' and len(tu.kids(node)) == 1:
                     node = tu.kids(node)[0]
+                # the inner loop(s) may live in a helper that is called once per iteration of this loop
+                hops = 0
+                while node is not None and level < 3 and hops < 4:
+                    cn = tu.strip(node)
+                    if cn is None or cn.get('kind') != 'CallExpr':
+                        break
+                    callee = tu.callee_fn(cn)
+                    if callee is None or callee['dep'] or tu.body(callee) is None:
+                        break
+                    _, _, cargs = tu.call_parts(cn)
+                    if len(cargs) != len(callee['params']):
+                        break
+                    env2 = dict(env)
+                    for prm, av in zip(callee['params'], cargs):
+                        env2[prm['id']] = nf(tu, av, env)
+                    inner = tu.kids(tu.body(callee))
+                    if len(inner) != 1:
+                        break
+                    env = env2
+                    node = inner[0]
+                    helpers.append(strip_targs(callee['q']).split('::')[-1])
+                    hops += 1
+                    while node is not None and node.get('kind') == 'CompoundStmt' and len(tu.kids(node)) == 1:
+                        node = tu.kids(node)[0]
             if not und:
                 if level != 3:
-                    problems.append(('depth', 'loop nest has depth %d, expected 3' % level))
+                    und.append('loop nest has depth %d (expected 3) and its innermost statement %s is not a helper whose body could be followed'
+                               % (level, tu.show(node)[:80] if node is not None else '?'))
                 else:
-                    call = nf(tu, node)
+                    call = nf(tu, node, env)
                     ok_call = False
                     if call[0] == 'op' and call[1] == '()' and len(call[2]) == 2:
                         callee, arg = call[2]
@@ -676,7 +713,8 @@ def check_for_each(ctx, tu):
                     seen.add(kind)
                     ctx.violation(R, inst, why, tu.fn_loc(f), key=key + kind)
             if not und and not problems:
-                ctx.ok(R, inst, 'for z in [lower.z, upper.z) / y / x nest, functor(vec3i(ix, iy, iz)) once per cell', tu.fn_loc(f))
+                ctx.ok(R, inst, 'for z in [lower.z, upper.z) / y / x nest, functor(vec3i(ix, iy, iz)) once per cell%s'
+                       % (' (inner loop in helper %s)' % ', '.join(helpers) if helpers else ''), tu.fn_loc(f))
         elif len(params) == 2:
             n += 1
             env, stmts, rets = fn_statements(tu, f)
